@@ -21,6 +21,30 @@ template <class T, glm::qualifier Q, int L> static void reg_geom() {
 		       long double eta = (long double)SA<T>::get(in[2 * L]); long double k = 1 - eta * eta * (1 - d * d);
 		       return (k < 0 ? -k : k) / (1 + eta * eta); });
 }
+// vec3 values whose invisible 4th SIMD lane holds junk (inf / NaN / a large number): an aligned vec3 is stored in a 4-lane register and
+// lane-wise operators, truncating constructors and cross() leave arbitrary data there; no visible result may depend on it.
+template <class T, glm::qualifier Q> static glm::vec<3, T, Q> junk3(const Slot* in, int variant) {
+	typedef glm::vec<3, T, Q> V3; typedef glm::vec<4, T, Q> V4;
+	V3 v = VL<3, T, Q>::ld(in);
+	T big = std::numeric_limits<T>::infinity();
+	switch (variant) {
+	case 0: return V3(V4(v, big));                        // truncating constructor of a vec4 with inf in w
+	case 1: return V3(V4(v, big) * V4(T(1), T(1), T(1), T(0)));  // inf * 0 = NaN in w from a lane-wise operator (exact in x,y,z)
+	case 2: return V3(V4(v, big) - V4(T(0), T(0), T(0), big));  // NaN in w, then truncated
+	default: return V3(V4(v, T(3e30)) * T(2));
+	}
+}
+template <class T, glm::qualifier Q> static void reg_hidden() {
+	const char tl = (char)SA<T>::L; typedef glm::vec<3, T, Q> V3;
+	add_op(nm<T, Q>("dot_hidden_lane", "vec3"), spec("@F3 @F3 iW1", tl), spec("@2", tl), 'U', 'U', 8, FN { V3 a = junk3<T, Q>(in, in[6].i & 3), b = junk3<T, Q>(in + 3, (in[6].i >> 2) & 3); SA<T>::put(out[0], glm::dot(a, b)); SA<T>::put(out[1], glm::dot(b, a)); },
+	       SC { long double s = 0; for (int i = 0; i < 3; ++i) { long double p = (long double)SA<T>::get(in[i]) * (long double)SA<T>::get(in[3 + i]); s += p < 0 ? -p : p; } return s; });
+	add_op(nm<T, Q>("length_hidden_lane", "vec3"), spec("@F3 iW1", tl), spec("@2", tl), 'U', 'R', 8, FN { V3 a = junk3<T, Q>(in, in[3].i & 3); SA<T>::put(out[0], glm::length(a)); SA<T>::put(out[1], glm::distance(a, V3(T(0)))); }, SC { return amax<T>(in, 0, 3) * 2; });
+	add_op(nm<T, Q>("normalize_hidden_lane", "vec3"), spec("@V3 iW1", tl), spec("@3", tl), 'U', 'R', 8, FN { ST(out, glm::normalize(junk3<T, Q>(in, in[3].i & 3))); }, SC { return 1.0L; });
+	add_op(nm<T, Q>("eq_hidden_lane", "vec3"), spec("@E3 @E3 iW1", tl), "b2", 'B', 'B', 0, FN { V3 a = junk3<T, Q>(in, in[6].i & 3), b = junk3<T, Q>(in + 3, (in[6].i >> 2) & 3); ST1(out, a == b); ST1(out + 1, a != b); });
+	add_op(nm<T, Q>("reflect_hidden_lane", "vec3"), spec("@F3 @U3 iW1", tl), spec("@3", tl), 'U', 'U', 16, FN { ST(out, glm::reflect(junk3<T, Q>(in, in[6].i & 3), junk3<T, Q>(in + 3, (in[6].i >> 2) & 3))); }, SC { return amax<T>(in, 0, 3) * 4; });
+	add_op(nm<T, Q>("cross_hidden_lane", "vec3"), spec("@F3 @F3 iW1", tl), spec("@3", tl), 'U', 'U', 8, FN { ST(out, glm::cross(junk3<T, Q>(in, in[6].i & 3), junk3<T, Q>(in + 3, (in[6].i >> 2) & 3))); }, SC { return 2 * amax<T>(in, 0, 3) * amax<T>(in, 3, 3); });
+	add_op(nm<T, Q>("min_max_hidden_lane", "vec3"), spec("@G3 @G3 iW1", tl), spec("@6", tl), 'V', 'V', 0, FN { V3 a = junk3<T, Q>(in, in[6].i & 3), b = junk3<T, Q>(in + 3, (in[6].i >> 2) & 3); ST(out, glm::min(a, b)); ST(out + 3, glm::max(a, b)); });
+}
 template <class T, glm::qualifier Q> static void reg_cross() {
 	typedef VL<3, T, Q> LV; const char tl = (char)SA<T>::L;
 	add_op(nm<T, Q>("cross", "vec3"), spec("@F3 @F3", tl), spec("@3", tl), 'U', 'U', 8, FN { ST(out, glm::cross(LV::ld(in), LV::ld(in + 3))); }, SC { return 2 * amax<T>(in, 0, 3) * amax<T>(in, 3, 3); });
@@ -71,6 +95,7 @@ template <class T, glm::qualifier Q, int N> static void reg_square() {
 template <class T, glm::qualifier Q> static void reg_tq() {
 	reg_geom<T, Q, 1>(); reg_geom<T, Q, 2>(); reg_geom<T, Q, 3>(); reg_geom<T, Q, 4>();
 	reg_cross<T, Q>();
+	reg_hidden<T, Q>();
 	reg_mat<T, Q, 2, 2>(); reg_mat<T, Q, 2, 3>(); reg_mat<T, Q, 2, 4>(); reg_mat<T, Q, 3, 2>(); reg_mat<T, Q, 3, 3>(); reg_mat<T, Q, 3, 4>(); reg_mat<T, Q, 4, 2>(); reg_mat<T, Q, 4, 3>(); reg_mat<T, Q, 4, 4>();
 	reg_matmul<T, Q, 2, 2, 2>(); reg_matmul<T, Q, 3, 3, 3>(); reg_matmul<T, Q, 4, 4, 4>(); reg_matmul<T, Q, 4, 4, 2>(); reg_matmul<T, Q, 4, 3, 3>(); reg_matmul<T, Q, 2, 4, 3>(); reg_matmul<T, Q, 3, 2, 4>(); reg_matmul<T, Q, 4, 2, 4>(); reg_matmul<T, Q, 3, 4, 2>();
 	reg_square<T, Q, 2>(); reg_square<T, Q, 3>(); reg_square<T, Q, 4>();
